@@ -78,6 +78,12 @@ theorem C16_bytes_partition (t : OpTable) (hs : Disasm.SizeOK t)
     simp [Disasm.bytesOf, List.flatMap_map]
   rw [e]; exact hl
 
+/-- `fed`, the field the other statements speak about, is nothing but the
+instructions of the schedule's push / push_all events, in order. -/
+theorem C16_fed (t : OpTable) (h : List Ev) : (run t h).fed = pushedOf h := by
+  have := Blocks.foldl_fed t h {}
+  simpa [run] using this
+
 /-- The flags the separator reads from the regenerated Cancun table are the
 specification's: jump-target ⇔ jumpdest; block-ending ⇔ jump, jumpi or halting
 (stop, return, revert, invalid, selfdestruct, every byte etk does not define). -/
